@@ -3,6 +3,7 @@ Axiom audit for the whole-document half of C12 (consistency of rewriter cores, e
 soundness, exact characterisation of acceptance).
 -/
 import AstGrepVerif.Props.C12Err
+import AstGrepVerif.Props.C12Globals
 
 open AGV AGV.C12 AGV.Loader
 
@@ -34,3 +35,26 @@ open AGV AGV.C12 AGV.Loader
 #print axioms potKinds_iff_pos
 #print axioms deserRule_err_field
 #print axioms withUtils_err
+-- global utility rules (`parse_global_utils`): Props/C12Globals.lean
+#print axioms loadGlobals_ok_refs_resolve
+#print axioms loadGlobals_ok_no_same_node_cycle
+#print axioms loadGlobals_total
+#print axioms loadGlobalsWith_total
+#print axioms loadGlobals_ok_post
+#print axioms loadGlobals_ok_graph_acyclic
+#print axioms globals_undefined_rejected
+#print axioms globals_cycle_rejected
+#print axioms globals_sort_ok_iff_acyclic
+#print axioms globalDeps_fuel
+#print axioms globals_undefined_rejected_example
+#print axioms globals_undefined_prefix_accepted
+#print axioms globals_undefined_needs_verify
+#print axioms globals_own_local_cycle_rejected_example
+#print axioms globals_own_local_cycle_prefix_accepted
+#print axioms globals_own_local_cycle_needs_localCycle
+#print axioms globals_accepted_example
+#print axioms globalGraph_edge_iff
+#print axioms mem_globalRuleIds_iff
+#print axioms globalRuleIds_fuel_stable
+#print axioms intoMap_of_nodup
+#print axioms loadGlobals_constraint_cycle_accepted_counterexample
